@@ -447,3 +447,96 @@ if __name__ == "__main__":
     from vf import runner
 
     sys.exit(runner.main("checks.c15", sys.argv[1:]))
+
+
+# ---------------------------------------------------------------------------
+# reordering stage: integrating solved sub-instances only permutes alleles within a position
+# (added after seeded change C15-1; the ILP / likelihood search that produces the sub-results stays not applicable)
+# ---------------------------------------------------------------------------
+class ReorderIntegrate(SubCheck):
+    name = "reorder_integrate"
+    encoded = ["whatshap.polyphase.reorder.integrate_sub_results", "find_breakpoints"]
+    sources = ["whatshap/polyphase/reorder.py", "whatshap/polyphase/__init__.py"]
+    stubs = ["AlleleMatrix / sub-matrix replaced by position maps (globalToLocal, localToGlobal, getPositions, getNumPositions)", "the sub-instance result is an ARBITRARY column-wise permutation of the alleles the collapsed threads carried, with an arbitrary subset of entries undetermined (-1) - what a recursive run_reordering can return"]
+    assumptions = ["sub-results permute, per position, the alleles of the haplotypes threaded through the collapsed cluster (the contract of run_reordering on the sub-instance), some possibly undetermined"]
+    required_cover = ["undetermined entry in a sub-result", "sub-result changes a slot"]
+
+    def shapes(self, tier):
+        out = [dict(ploidy=3, threads=2, npos=2), dict(ploidy=3, threads=3, npos=1), dict(ploidy=4, threads=2, npos=2)]
+        if tier != "quick":
+            out += [dict(ploidy=4, threads=3, npos=2), dict(ploidy=4, threads=4, npos=1), dict(ploidy=3, threads=2, npos=2, alleles=[0, 1, 2])]
+        return out
+
+    def bounds(self, tier):
+        return "ploidy 3-4, 2-3 (thorough 4) haplotypes threaded through one collapsed cluster, 1-2 positions, alleles {0,1} ({0,1,2} in one thorough shape) on the collapsed haplotypes; every permutation and every -1 mask of the sub-result"
+
+    def setup(self):
+        from vf import build
+        from vf.models import core_model
+
+        build.prepare_repo()
+        import whatshap.polyphase.solver  # noqa
+        import whatshap.polyphase.reorder as r_re
+        import whatshap.polyphase as r_pp
+
+        ov = {"whatshap.core": core_model, "whatshap.polyphase.solver": sys.modules["whatshap.polyphase.solver"]}
+        w = SymWorld(overrides=ov)
+        self._sym = (w.load("whatshap.polyphase.reorder"), w.load("whatshap.polyphase"))
+        self._real = (r_re, r_pp)
+
+    def sym_impl(self):
+        return self._sym
+
+    def real_impl(self):
+        return self._real
+
+    def harness(self, e, shape, impl):
+        reorder, pp = impl
+        P, T, N = shape["ploidy"], shape["threads"], shape["npos"]
+        thread_set = list(range(P - T, P))  # the last T haplotypes run through the collapsed cluster
+        alleles = shape.get("alleles", [0, 1])
+        hap = [[e.choice("a_%d_%d" % (h, p), alleles) if h in thread_set else (h + p) % 2 for p in range(N)] for h in range(P)]
+        before = [list(r) for r in hap]
+        sub = [[None] * N for _ in range(T)]
+        changed = masked = False
+        for p in range(N):
+            perm = e.perm("perm_%d" % p, T)
+            for j in range(T):
+                v = before[thread_set[perm[j]]][p]
+                if e.bit("undet_%d_%d" % (j, p)):
+                    v = -1
+                    masked = True
+                sub[j][p] = v
+                if v != before[thread_set[j]][p]:
+                    changed = True
+        if masked:
+            e.cover("undetermined entry in a sub-result")
+        if changed:
+            e.cover("sub-result changes a slot")
+
+        class AM:
+            def globalToLocal(s, g):
+                return g
+
+            def getNumPositions(s):
+                return N
+
+        class Sub:
+            def getPositions(s):
+                return list(range(N))
+
+            def localToGlobal(s, l):
+                return l
+
+        res = pp.PolyphaseBlockResult(block_id=0, clustering=[], threads=[], haplotypes=sub, breakpoints=[])
+        threads = [[0] * P for _ in range(N)]
+        reorder.integrate_sub_results(AM(), [(0, thread_set, Sub())], [res], threads, hap)
+        e.out("haplotypes", [list(r) for r in hap])
+        for p in range(N):
+            col = [hap[h][p] for h in range(P)]
+            if -1 in col:
+                continue  # the position is left unphased downstream
+            e.check(sorted(col) == sorted(before[h][p] for h in range(P)), "integrating a sub-instance result changed the allele multiset of a position without marking it undetermined", lambda p=p: dict(position=p, before=[r[p] for r in before], after=col, sub_result=[r[p] for r in sub]))
+
+
+SUBCHECKS["reorder_integrate"] = ReorderIntegrate()
